@@ -55,4 +55,44 @@ def run(ctx):
             ctx.ob(f"update_headers|{v}", live, f"{v} is produced by update_headers")
     else:
         ctx.ob("anchor|AcrossIntentAggregation::finalize", False, f"candidates: {fin}")
+    ctx.rule("write-then-check (T3): in AcrossIntentAggregation::update_headers every update of an overall epoch / timestamp bound is followed, on "
+             "every path to Ok, by the emptiness test of that window (a comparison depending on both bounds with a rejecting arm), unless one of "
+             "the two bounds is still absent (None arm)")
+    uh = [n for n in F.fns if n.endswith("AcrossIntentAggregation::update_headers")]
+    if len(uh) == 1:
+        b = ctx.body(uh[0])
+        oks = set(b.ok_exits())
+        for lo, hi, what in (("overall_start_epoch_inclusive", "overall_end_epoch_exclusive", "epoch"),
+                             ("overall_start_timestamp_inclusive", "overall_end_timestamp_exclusive", "timestamp")):
+            writes = [i for i in range(b.n) for st in b.stmts(i) if st["k"] == "=" and st["p"][-1] in ("." + lo, "." + hi)]
+            cmp_edges, cmp_blocks, none_edges = [], [], []
+            for sb in b.switches():
+                si = b.switch_info(sb)
+                ats = b.origins(b.term(sb)["o"], deep=True)
+                dep_lo = any("." + lo in a.proj for a in ats)
+                dep_hi = any("." + hi in a.proj for a in ats)
+                if si["kind"] == "bool" and dep_lo and dep_hi:
+                    succs = b.succs(sb)
+                    d = [x for x in succs if doomed(b, x)]
+                    if d and len(d) < len(succs):
+                        cmp_blocks.append(sb)
+                        cmp_edges += [(sb, x) for x in succs if x not in d]
+                if si["kind"] == "enum" and si["enum"] == "core::option::Option" and \
+                        any(("." + lo in a.proj or "." + hi in a.proj) for a in si["atoms"] + b.origins(si["place"], deep=True)):
+                    if "None" in si["edges"]:
+                        none_edges.append((sb, si["edges"]["None"]))
+                    elif si["otherwise"] is not None:
+                        none_edges.append((sb, si["otherwise"]))
+            ok = bool(writes) and bool(cmp_blocks)
+            wit = None
+            for w in sorted(set(writes)):
+                r = b.reach(tuple(b.succs(w)), blocked_edges=cmp_edges + none_edges)
+                if r & oks:
+                    ok = False
+                    wit = w
+            ctx.ob(f"update_headers|{what}-window-checked-after-every-update", ok,
+                   f"{len(set(writes))} update site(s) of the overall {what} bounds; emptiness test at bb{cmp_blocks}" +
+                   ("" if ok else f"; the update at line {b.line(wit) if wit is not None else '?'} can reach Ok without the emptiness test"), b.loc(cmp_blocks[0]) if cmp_blocks else b.loc())
+    else:
+        ctx.ob("anchor|update_headers", False, f"candidates: {uh}")
     ctx.assume("that each boundary is exact (< vs <=) and the window intersection arithmetic are value-level and not decided")
